@@ -81,8 +81,7 @@ def step (st : St) (toks : List String) : St × String :=
       | none => (st, "ok never")
       | some t =>
         let cls := if t ≤ st.now then "past"
-          else if t - st.now = 1800 then "lease"
-          else if t - st.now = 3600 then "duration"
+          else if e.lease ≠ 0 ∧ t - st.now = e.lease then "lease"   -- one lease (the entry's own) from now
           else s!"other:{t - st.now}"
         (st, s!"ok {cls}")
   | ["sexpire", sid] => ({ st with s := setExp st.s (chars sid) (some 0) }, "ok")
